@@ -105,28 +105,33 @@ Proof. exact field_name_no_trailing_uscore. Qed.
 
 (* ================================================================== integer constants have their declared type
 
-   fmt_const prints `pub const NAME: <to_const_lit_string of the RustType> = <decimal text of the i64 value>;` for named
-   numbers and INTEGER value references.  [const_lit_type t = CTInt k]: the declared type is the integer type k (the
-   type itself, or below DEFAULT).  [int_wf k mn mx]: the bounds of the Rust type are values of k and only u64 lacks
-   bounds (property C15).  Outside F09-9 ([Known_C09_const_negative_on_unsigned]: a negative value on an unsigned
-   type) and F09-10 ([Known_C09_const_out_of_constraint]: a value outside the constraint) the literal is a value of k.
+   impl_consts prints `pub const NAME: <to_const_lit_string of r#type.as_no_option()> = <decimal text of the i64 value>;`
+   for named numbers (fmt_const; /repo fd1f3f1 added the as_no_option).  [assoc_const_type t = CTInt k]: the declared type
+   is the integer type k -- for the type itself, below DEFAULT, and below the Option of an extension addition.
+   [int_wf k mn mx]: the bounds of the Rust type are values of k and only u64 lacks bounds (property C15).  Outside F09-9
+   ([Known_C09_const_negative_on_unsigned]: a negative value on an unsigned type) and F09-10
+   ([Known_C09_const_out_of_constraint]: a value outside the constraint) the literal is a value of k.
    PARTIAL: other constant types (strings, octet strings: F09-11, F09-12) are covered by the oracle only. *)
 Theorem C09_consts_typed_partial : forall t k mn mx z,
-  const_lit_type t = CTInt k -> int_wf k mn mx -> (IntTy.i64_min <= z <= IntTy.i64_max)%Z ->
+  assoc_const_type t = CTInt k -> int_wf k mn mx -> (IntTy.i64_min <= z <= IntTy.i64_max)%Z ->
   ~ Known_C09_const_negative_on_unsigned k z -> ~ Known_C09_const_out_of_constraint mn mx z ->
   IntTy.fits k z.
 Proof. intros t k mn mx z _. exact (consts_typed k mn mx z). Qed.
 
 (* the declared type is the integer type for the type itself and below DEFAULT ... *)
 Theorem C09_const_declared_type : forall k mn mx e l,
-  const_lit_type (RInt k mn mx e) = CTInt k /\ const_lit_type (RDefault (RInt k mn mx e) l) = CTInt k.
+  assoc_const_type (RInt k mn mx e) = CTInt k /\ assoc_const_type (RDefault (RInt k mn mx e) l) = CTInt k.
 Proof. intros. split; reflexivity. Qed.
 
-(* ... but NOT for an extension addition, which to_rust wraps in Option: `pub const B_X: Option<u8> = 1;`
-   (S ::= SEQUENCE { a BOOLEAN, ..., b INTEGER { x(1) } (0..9) }) *)
-Theorem C09_refuted_const_on_optional_type : forall k mn mx e,
+(* ... and, since /repo fd1f3f1, for an extension addition, which to_rust wraps in Option
+   (S ::= SEQUENCE { a BOOLEAN, ..., b INTEGER { x(1) } (0..9) } gave `pub const B_X: Option<u8> = 1;`, E0308; now
+   `pub const B_X: u8 = 1;`): the hypothesis of C09_consts_typed_partial holds for it.  to_const_lit_string alone still
+   answers Option<..> -- the stripping is impl_consts' *)
+Theorem C09_const_on_extension_addition_fixed : forall k mn mx e,
+  assoc_const_type (ROption (RInt k mn mx e)) = CTInt k /\
+  assoc_const_type (ROption (ROption (RInt k mn mx e))) = CTInt k /\
   const_lit_type (ROption (RInt k mn mx e)) = CTOption (CTInt k).
-Proof. intros. reflexivity. Qed.
+Proof. intros. repeat split; reflexivity. Qed.
 
 Theorem C09_refuted_const_negative_on_unsigned :
   int_wf IntTy.U64 None None /\ Known_C09_const_negative_on_unsigned IntTy.U64 (-40)%Z /\ ~ IntTy.fits IntTy.U64 (-40)%Z.
@@ -165,7 +170,7 @@ Print Assumptions C09_no_collision.
 Print Assumptions C09_field_name_no_trailing_underscore.
 Print Assumptions C09_consts_typed_partial.
 Print Assumptions C09_const_declared_type.
-Print Assumptions C09_refuted_const_on_optional_type.
+Print Assumptions C09_const_on_extension_addition_fixed.
 Print Assumptions C09_refuted_const_negative_on_unsigned.
 Print Assumptions C09_keywords_complete.
 Print Assumptions C09_keywords_complete_identifier.
